@@ -96,25 +96,25 @@ type Ctx struct {
 	SZygo *ssa.Package
 	SCmd  *ssa.Package
 
-	obs      []*Ob
-	keyCount map[string]int
-	posTok   token.Pos
-	fnByName map[string]*ssa.Function
-	peekOK   int
-	peekWhy  string
+	obs             []*Ob
+	keyCount        map[string]int
+	posTok          token.Pos
+	fnByName        map[string]*ssa.Function
+	peekOK          int
+	peekWhy         string
 	anchorsVerified int
-	table    map[string]*TableRow
-	mins     map[string]int
-	known    KnownFile
-	notes    map[string]interface{}
-	assume   []string
-	explain  []string
-	t0       time.Time
-	nPkgs    int
-	nFuncs   int
-	zfuncs   []*ssa.Function
-	es       *ES
-	esv      *esVerdicts
+	table           map[string]*TableRow
+	mins            map[string]int
+	known           KnownFile
+	notes           map[string]interface{}
+	assume          []string
+	explain         []string
+	t0              time.Time
+	nPkgs           int
+	nFuncs          int
+	zfuncs          []*ssa.Function
+	es              *ES
+	esv             *esVerdicts
 }
 
 func die(format string, a ...interface{}) {
@@ -590,23 +590,23 @@ func (c *Ctx) finish() int {
 	}
 	wall := time.Since(c.t0).Seconds()
 	cov := map[string]interface{}{
-		"explanation":         strings.Join(c.explain, " "),
-		"obligations":         len(c.obs),
-		"discharged":          nOK + nExempt + len(knownHits),
-		"discharged_by_rule":  nOK,
-		"discharged_by_table": nExempt,
-		"known_findings_hit":  len(knownHits),
-		"evaluations":         len(c.obs),
-		"distinct_nontrivial": len(distinct),
-		"rule":                "one obligation per rule instance, keyed rule|function|construct (never a line number); non-trivial = not an anchor-existence check",
-		"samples":             samples,
-		"per_rule":            perRule,
-		"packages_loaded":     c.nPkgs,
-		"ssa_functions":       c.nFuncs,
-		"config":              fmt.Sprintf("%s/%s", orDefault(c.GOOS, "host-os"), orDefault(c.GOARCH, "host-arch")),
-		"checker_cmd":         fmt.Sprintf("./check %s %s", c.Prop, c.Tier),
-		"trusted_base":        []string{"go/types, go/ssa, go/packages (x/tools v0.29.0)", "Go language semantics of the inspected constructs", "tables in zycheck/tables/" + c.Prop + ".tsv (each row: one keyed construct + reason)"},
-		"stale_table_rows":    stale,
+		"explanation":            strings.Join(c.explain, " "),
+		"obligations":            len(c.obs),
+		"discharged":             nOK + nExempt + len(knownHits),
+		"discharged_by_rule":     nOK,
+		"discharged_by_table":    nExempt,
+		"known_findings_hit":     len(knownHits),
+		"evaluations":            len(c.obs),
+		"distinct_nontrivial":    len(distinct),
+		"rule":                   "one obligation per rule instance, keyed rule|function|construct (never a line number); non-trivial = not an anchor-existence check",
+		"samples":                samples,
+		"per_rule":               perRule,
+		"packages_loaded":        c.nPkgs,
+		"ssa_functions":          c.nFuncs,
+		"config":                 fmt.Sprintf("%s/%s", orDefault(c.GOOS, "host-os"), orDefault(c.GOARCH, "host-arch")),
+		"checker_cmd":            fmt.Sprintf("./check %s %s", c.Prop, c.Tier),
+		"trusted_base":           []string{"go/types, go/ssa, go/packages (x/tools v0.29.0)", "Go language semantics of the inspected constructs", "tables in zycheck/tables/" + c.Prop + ".tsv (each row: one keyed construct + reason)"},
+		"stale_table_rows":       stale,
 		"table_anchors_verified": c.anchorsVerified,
 	}
 	for k, v := range c.notes {
